@@ -148,7 +148,9 @@ def gen_module(rng, params):
             term = {"v": "ijmp"}
         elif r < 0.80:
             term = {"v": "icall"}
-        if (term is None or term["v"] in ("jcc", "jcc8", "call", "icall")) and (last_in_section or not next_is_code):
+        elif r < 0.80 + params.get("syscall_p", 0.0) and isa != "arm64":
+            term = {"v": "syscall"}
+        if (term is None or term["v"] in ("jcc", "jcc8", "call", "icall", "syscall")) and (last_in_section or not next_is_code):
             # do not run off the end of code
             if rng.random() >= params.get("wild", 0.0):
                 term = {"v": rng.choice(["ret", "ret", "ijmp"])}
